@@ -6,7 +6,8 @@ C09 — failure contract: classified, sticky, surfaced by Close, I/O errors verb
 * "a valid stream cut short at any byte fails with exactly io.ErrUnexpectedEOF":
   proved for DEFLATE and bzip2 on the specifications, tied to the Go readers by
   C01 (refinement) and the bz correspondence; Brotli: sweep only;
-* sticky + Close: direct lemmas on the Reader models (xflate, flate);
+* sticky + Close: direct lemmas on the Reader models (xflate, flate, bzip2 - the
+  bzip2.Reader model has sticky and the cut theorem, Close is swept);
   the other Readers: sweep (family life).
 Property theorems only.
 -/
@@ -17,6 +18,7 @@ import Compress.Proofs.FlateRefine
 import Compress.Proofs.Bzip2Cut
 import Compress.Proofs.BrotliCut
 import Compress.Proofs.XFlateReader
+import Compress.Proofs.BzImplCut
 
 namespace Compress.Props.C09
 open Compress Compress.XFlate
@@ -84,5 +86,28 @@ theorem C09_brotli_cut_is_ueof (dict : ByteArray) (bytes : List UInt8) (out : Ar
     (decode dict (bytes.take k)).verdict = .unexpectedEOF ∧
     (decode dict (bytes.take k)).out.toList <+: out.toList :=
   Compress.Proofs.BrotliCut.decode_cut dict bytes out n h k hk
+
+open Compress.Proofs.BzImpl in
+/-- **bzip2.Reader, sticky.** Once a Read of the reader model has returned an error, every later
+    Read, whatever its buffer length, returns no data and the same error, and leaves the reader
+    unchanged. -/
+theorem C09_bzip2_sticky (bytes : List UInt8) (sched : List Nat) (e : Bzip2.Impl.Err)
+    (h : (Bzip2.Impl.run bytes sched).err = some e) (m : Nat) :
+    Bzip2.Impl.read (Bzip2.Impl.readFuel (Bzip2.Impl.run bytes sched).final) m (Bzip2.Impl.run bytes sched).final =
+      ((Bzip2.Impl.run bytes sched).final, [], some e) :=
+  (refines_of_tables tables_agree bytes sched).sticky e h m
+
+open Compress.Proofs.BzImpl in
+/-- **bzip2.Reader, a valid stream cut short at any byte**: under every Read schedule the reader
+    model delivers a prefix of the full output and fails with exactly io.ErrUnexpectedEOF (or ends
+    with io.EOF where the cut is the end of one of the concatenated streams). -/
+theorem C09_bzip2_reader_cut_is_ueof (bytes : List UInt8) (out : Array UInt8)
+    (h : Bzip2.decode bytes = { out := out, verdict := .ok }) (k : Nat) (hk : k < bytes.length)
+    (sched : List Nat) :
+    (Bzip2.Impl.run (bytes.take k) sched).delivered <+: out.toList ∧
+    ∀ e, (Bzip2.Impl.run (bytes.take k) sched).err = some e →
+      e = .unexpectedEOF ∨
+      (e = .eof ∧ 0 < k ∧ ∃ out2, Bzip2.decode (bytes.drop k) = { out := out2, verdict := .ok }) :=
+  cut_class bytes out h k hk sched
 
 end Compress.Props.C09
